@@ -96,7 +96,13 @@ def run(tier, replay=None):
         jobs.append(("raw: " + name, "raw-input", "xml", raw, None))
     # include graphs
     good = seeds[0][1]
-    inc = [("self include", {"a.xml": '<?xml version="1.0"?><messageSchema package="p" id="1" version="0"><include href="a.xml"/></messageSchema>'}),
+    incfile = '<?xml version="1.0"?><include href="%s"/>'
+    inc = [("included file includes itself", {"a.xml": '<?xml version="1.0"?><messageSchema package="p" id="1" version="0"><include href="b.xml"/></messageSchema>', "b.xml": incfile % "b.xml"}),
+           ("included files include each other", {"a.xml": '<?xml version="1.0"?><messageSchema package="p" id="1" version="0"><include href="b.xml"/></messageSchema>',
+                                                  "b.xml": incfile % "c.xml", "c.xml": incfile % "./b.xml"}),
+           ("included file includes the root schema", {"a.xml": '<?xml version="1.0"?><messageSchema package="p" id="1" version="0"><include href="b.xml"/></messageSchema>', "b.xml": incfile % "a.xml"}),
+           ("file name with braces", {"a.xml": '<?xml version="1.0"?><messageSchema package="p" id="1" version="0"><include href="{x}.xml"/></messageSchema>'}),
+           ("self include", {"a.xml": '<?xml version="1.0"?><messageSchema package="p" id="1" version="0"><include href="a.xml"/></messageSchema>'}),
            ("mutual include", {"a.xml": '<?xml version="1.0"?><messageSchema package="p" id="1" version="0"><include href="b.xml"/></messageSchema>',
                                "b.xml": '<?xml version="1.0"?><messageSchema package="q" id="1" version="0"><include href="a.xml"/></messageSchema>'}),
            ("missing include", {"a.xml": '<?xml version="1.0"?><messageSchema package="p" id="1" version="0"><include href="nope.xml"/></messageSchema>'}),
